@@ -11,6 +11,7 @@ import (
 	"crypto/sha256"
 	"encoding/binary"
 	"fmt"
+	"reflect"
 	"sync"
 	"sync/atomic"
 
@@ -173,7 +174,8 @@ var keyPool = map[string]poolKey{
 	"K1b": {"k1", 7, []string{"s1", "s2", "s3"}, "pub", "c1b"},
 	"K6":  {"k6", 7, []string{"s1", "s2", "s3"}, "pub", "c6"},
 	"K7":  {"k7", 9, []string{"s1", "s4"}, "pub", "c7"},
-	"KX":  {"kx", 7, []string{"s1", "s2", "s3"}, "pub", "cx"}, // config bytes of an unknown version: held, never usable
+	"KP":  {"kp", 10, []string{"s1", "s2", "s3"}, "pub", "cp"}, // a P-256 KEM key: held, not usable by the library's HPKE, never a candidate
+	"KX":  {"kx", 7, []string{"s1", "s2", "s3"}, "pub", "cx"},  // config bytes of an unknown version: held, never usable
 }
 
 var suiteAEAD = map[string]uint16{"s1": 1, "s2": 2, "s3": 3, "s4": 1}
@@ -197,6 +199,12 @@ func newKeyring(seed int64) *keyring {
 		}
 		kr.privs[kid] = p
 	}
+	hp := sha256.Sum256([]byte(fmt.Sprintf("verif-key-kp-%d", seed)))
+	if p, err := ecdh.P256().NewPrivateKey(hp[:]); err == nil {
+		kr.privs["kp"] = p
+	} else {
+		panic(err)
+	}
 	for _, pk := range keyPool {
 		var cs []ech.CipherSuite
 		for _, s := range pk.suites {
@@ -211,7 +219,11 @@ func newKeyring(seed int64) *keyring {
 		for _, c := range cs {
 			suites = append(suites, [2]uint16{c.KDF, c.AEAD})
 		}
-		b := encECHConfig(pk.cid, 0x20, kr.privs[pk.kid].PublicKey().Bytes(), suites, 64+int(pk.cid), []byte(sniName[pk.pub]))
+		kem := uint16(0x20)
+		if pk.kid == "kp" {
+			kem = 0x10 // DHKEM(P-256, HKDF-SHA256)
+		}
+		b := encECHConfig(pk.cid, kem, kr.privs[pk.kid].PublicKey().Bytes(), suites, 64+int(pk.cid), []byte(sniName[pk.pub]))
 		if pk.cfg == "cx" {
 			b[0], b[1] = 0xfe, 0x0e
 		}
@@ -293,14 +305,60 @@ func keyOptionsOnly(keys []ech.Key) []ech.Option {
 		}
 		return []ech.Option{ech.WithKeys([]ech.Key{})}
 	}
+	n := int(keySplit.Add(1))
 	if len(keys) < 2 {
-		return []ech.Option{ech.WithKeys(keys)}
+		// one key, said in the ways an application may say it (an option that adds nothing before or after it)
+		switch n % 4 {
+		case 0:
+			return []ech.Option{ech.WithKeys(keys)}
+		case 1:
+			return []ech.Option{ech.WithKeys(spareKeys(keys)), ech.WithKeys(nil)}
+		case 2:
+			return []ech.Option{ech.WithKeys([]ech.Key{}), ech.WithKeys(spareKeys(keys))}
+		}
+		return []ech.Option{ech.WithKeys(spareKeys(keys))}
 	}
-	at := int(keySplit.Add(1)) % len(keys)
+	at := n % len(keys)
 	if at == 0 {
-		return []ech.Option{ech.WithKeys(keys)}
+		return []ech.Option{ech.WithKeys(spareKeys(keys))}
 	}
-	return []ech.Option{ech.WithKeys(keys[:at:at]), ech.WithKeys(keys[at:])}
+	return []ech.Option{ech.WithKeys(spareKeys(keys[:at])), ech.WithKeys(spareKeys(keys[at:]))}
+}
+
+// spareKeys returns the keys as a sub-slice of a larger array of the caller's (the way a key list cut out of a bigger table
+// is): the elements behind it are the caller's and must still be there afterwards (checkKeyArrays).
+func spareKeys(keys []ech.Key) []ech.Key {
+	arr := make([]ech.Key, len(keys)+2)
+	copy(arr, keys)
+	for i := len(keys); i < len(arr); i++ {
+		arr[i] = ech.Key{Config: []byte("the caller's own element"), PrivateKey: []byte{byte(i)}}
+	}
+	keyArrMu.Lock()
+	if len(keyArrs) < 4096 {
+		keyArrs = append(keyArrs, keyArr{arr: arr, want: cloneKeys(arr)})
+	}
+	keyArrMu.Unlock()
+	return arr[:len(keys)]
+}
+
+type keyArr struct{ arr, want []ech.Key }
+
+var (
+	keyArrMu sync.Mutex
+	keyArrs  []keyArr
+)
+
+// checkKeyArrays: every array a key list was cut from is as the caller left it.
+func checkKeyArrays() string {
+	keyArrMu.Lock()
+	defer keyArrMu.Unlock()
+	defer func() { keyArrs = keyArrs[:0] }()
+	for _, k := range keyArrs {
+		if !reflect.DeepEqual(k.arr, k.want) {
+			return "a key list passed to WithKeys was cut out of a larger array of the caller's, and elements of that array behind the list were overwritten"
+		}
+	}
+	return ""
 }
 
 func hpkeAEAD(s string) hpke.AEAD {
